@@ -329,6 +329,15 @@ impl DirEntry {
     }
 }
 
+#[cfg(feature = "verif-hooks")]
+impl DirEntry {
+    /// Public forwarder to the crate-private `serialize`, only for the verification harness.
+    #[doc(hidden)]
+    pub fn verif_serialize(&self, fat_type: crate::fat::FatType) -> [u8; 32] {
+        self.serialize(fat_type)
+    }
+}
+
 // ****************************************************************************
 //
 // End Of File
